@@ -562,7 +562,7 @@ def corr_maps(ctx, res: CorrResult):
             res.distribution["map_impl_raises"] += 1
             continue
         cases.append(c); outs.append(o)
-    per = 400
+    per = 120
     shards = []
     for i in range(0, len(cases), per):
         cs, os_ = cases[i:i + per], outs[i:i + per]
@@ -689,7 +689,7 @@ def corr_systemize(ctx, res: CorrResult, models):
         cases.append({"source": spec_source(mm.spec), "values": mm.spec["values"], "impl": "rejected" if "rejected" in o else "matrices"})
         texts.append(f"  (({coq_bool(exact)}, {coq_sys_case(info, mm.rho)}),\n   {exp})")
         res.distribution["exact_cases"] = res.distribution.get("exact_cases", 0) + int(exact)
-    per = 60
+    per = 30
     shards = []
     for i in range(0, len(texts), per):
         lines = [HEADER, "Definition cases : list ((bool * option (list (list (list float)))) * option (list (list (list float)))) := [",
@@ -793,7 +793,7 @@ def corr_steady(ctx, res: CorrResult, models):
             call = f"nonflat_steady_jacobian FA {k} (rho_of FA {p['rho']}) (lg_of {p['logs']})\n     {p['eqs']} {wq}"
         cases.append({"source": spec_source(mm.spec), "values": mm.spec["values"], "flat": flat})
         texts.append(f"  (({coq_bool(exact)}, {call}),\n   {Jc})")
-    per = 60
+    per = 30
     shards = []
     for i in range(0, len(texts), per):
         lines = [HEADER, "Definition cases : list ((bool * option (list (list float))) * option (list (list float))) := [",
@@ -910,7 +910,7 @@ def corr_stacked(ctx, res: CorrResult, models):
                 f"{coq_tokens(spots)} {coq_list([coq_z(c) for c in cols])}")
         cases.append({"source": spec_source(mm.spec), "values": mm.spec["values"], "periods": nper})
         texts.append(f"  (({coq_bool(exact)}, {call}),\n   {Jc})")
-    per = 40
+    per = 25
     shards = []
     for i in range(0, len(texts), per):
         lines = [HEADER, "Definition cases : list ((bool * option (list (list float))) * option (list (list float))) := [",
